@@ -30,6 +30,7 @@ class SqlWorld:
         self.log = []  # (conn#, kind, sql, params)
         self.errors = []  # (conn#, sql, repr(exception)) raised by the engine
         self.fault = None
+        self.fetch_fault = None
         self.counting = False
         self.count = 0
         self.conn_seq = 0
@@ -252,14 +253,46 @@ class ShimCursor:
         await self._run("executemany", sql, list(seq))
         return self
 
+    # a result that is being read can fail too (SqlWorld.fetch_fault = {"at": k}: the k-th row of the results read from now on is never
+    # delivered - the fetch that would deliver it raises - and the rows before it are delivered in full)
+    def _rows(self, n):
+        buf = getattr(self, "_pend", None) or []
+        if n is None:
+            rows, buf = buf + list(self.cur.fetchall()), []
+        else:
+            if n > len(buf):
+                buf = buf + list(self.cur.fetchmany(n - len(buf)))
+            rows, buf = buf[:n], buf[n:]
+        self._pend = buf
+        f = getattr(self.conn.world, "fetch_fault", None)
+        if f is None or f.get("fired") or not rows:
+            return rows
+        room = f["at"] - 1 - f.get("seen", 0)
+        if room <= 0:
+            f["fired"] = True
+            raise sqlite3.OperationalError("injected engine failure while the result was being read (row %d)" % f["at"])
+        if len(rows) > room:
+            self._pend = rows[room:] + self._pend
+            rows = rows[:room]
+        f["seen"] = f.get("seen", 0) + len(rows)
+        return rows
+
     async def fetchall(self):
-        return self.cur.fetchall()
+        out = []
+        while True:
+            rows = self._rows(None if not out and not getattr(self, "_pend", None) else 10 ** 9)
+            if not rows:
+                return out
+            out += rows
+            if getattr(self.conn.world, "fetch_fault", None) is None:
+                return out
 
     async def fetchone(self):
-        return self.cur.fetchone()
+        r = self._rows(1)
+        return r[0] if r else None
 
     async def fetchmany(self, size=None):
-        return self.cur.fetchmany(size if size is not None else self.arraysize)
+        return self._rows(size if size is not None else self.arraysize)
 
     async def close(self):
         if self.cur is not None:
